@@ -71,6 +71,16 @@ Fixpoint rep_loop (data : list N) (off : N) (n : nat) (best : N * N) : option (N
 Definition check_repetitiveness (data : list N) : option (N * N) :=
   rep_loop data rep_off_lo (N.to_nat (rep_off_hi - rep_off_lo)) (0, 1).
 
+(* ---- specification side: the decision as a plain statement about the offsets.
+   [offset_reaches data off]: at this offset cur_size > 0 and cnt / cur_size >= threshold *)
+Definition offset_reaches (data : list N) (off : N) : bool :=
+  match rep_count data (skipnN off data) 0 0 with
+  | Some (cnt, cur) => (0 <? cur) && (rep_thr_num * cur <=? cnt * rep_thr_den)
+  | None => false
+  end.
+Definition offsets_from (lo : N) (n : nat) : list N := map (fun i => lo + N.of_nat i) (seq 0 n).
+Definition rep_offsets : list N := offsets_from rep_off_lo (N.to_nat (rep_off_hi - rep_off_lo)).
+
 Section Zstd.
   Variable zc : N -> list N -> list N.          (* compress_segment_pooled(data, level) *)
   Variable zd : list N -> option (list N).      (* decompress_segment_pooled = zstd::decode_all *)
